@@ -1,4 +1,6 @@
 import OpusProofs.EncSkelWfLow
+import OpusProofs.EncSkelWfMulti
+import OpusProofs.EncSkelWfSingle
 import OpusProps.C02
 /-
   Property C02, slice `Wf` — packet well-formedness of EVERY output shape of the encoder skeleton, with NO
@@ -10,9 +12,16 @@ import OpusProps.C02
   MODEL of property C07 (`Opus.Repack`: `cat`, `outRangeImpl`, `emit`, `packetPad`, transcribed from
   src/repacketizer.c and tied to it by C07's own correspondence run) and the parser of C06 (`Framing.parseImpl`):
 
-    Repack.emit  =  the contract                                  (contract_is_repack_model)
+    Repack.emit  =  the contract outRange                         (contract_is_repack_model)
     init; cat sub-packet_1 … cat sub-packet_n; out_range_impl  =  the contract on the concatenated frames
                                                                   (repack_run_is_contract, wellformed_multiframe)
+    Repack.packetPad  =  the contract padSpec, for every new_len   (pad_contract_is_model, packet_pad_is_run)
+    every frame call returns a contract-shaped sub-packet          (frame_packet_is_contract_output)
+    low-budget ToC-only / code-3 PLC packet, unpadded and padded   (wellformed_low_budget)
+    opus_encode_native, multi-frame path: the emitted bytes are the model's run on the ACTUAL sub-packets of the loop
+                                                                  (encode_wellformed_multiframe)
+    opus_encode_native, single-frame path: the emitted bytes are the frame call's / the model's opus_packet_pad
+                                                                  (encode_wellformed_single)
     every success return of opus_encode_native is such a run's output and parses to the frames handed in,
     count · samples_per_frame = frame_size                        (encode_wellformed)
 -/
@@ -182,6 +191,83 @@ theorem wellformed_low_budget (s : St) (fsz out : Int)
 example : legalFrame 48000 4800 = true ∧ lowHdr0 (lowSt 48000 1002 1105 2) 4800 3 = [0xFF, 5] ∧
     lowLens (lowSt 48000 1002 1105 2) 4800 3 = [0, 0, 0, 0, 0] ∧ lowRet0 (lowSt 48000 1002 1105 2) 4800 3 = 2 ∧
     padSpec 252 [0, 0, 0, 0, 0] 2 40 = (OPUS_OK, some { size := 40, hdr := [255, 69, 37] }) := by decide +kernel
+
+/-- `wellformed_multiframe` / `wellformed_dtx` for `opus_encode_native` itself, naming the ACTUAL sub-packets.  On the
+    multi-frame path (opus_encoder.c:1616-1747: 40/60/80/100/120 ms in CELT/hybrid, 80/100/120 ms in SILK), for every
+    state within the skeleton invariant, every oracle behaviour within the contracts and ANY payload contents of the
+    recorded lengths: (1) the frame lengths of the emitted packet are the payload lengths of the loop's
+    `opus_encode_frame_native` calls (`multiTrace`, in order; a DTX sub-frame contributes an empty frame); (2) running
+    the repacketiser MODEL of C07 — `opus_repacketizer_init`, one `opus_repacketizer_cat` per sub-frame on exactly the
+    bytes that call wrote (`subBytes r f = r.hdr ++ f ++ zero padding`: the code-0 packet, the 1-byte DTX packet, or in
+    CBR the packet `opus_packet_pad` padded to `curr_max`), then
+    `opus_repacketizer_out_range_impl(rp, 0, nb_frames, data, repacketize_len, 0, pad, NULL, 0)` — accepts every `cat`
+    and returns exactly the emitted bytes `header ++ frames ++ zero padding` (which `encode_wellformed` shows to parse
+    with `count · samples_per_frame = frame_size`).  No repacketiser contract is assumed. -/
+theorem encode_wellformed_multiframe (s : St) (fuzz : Bool) (fsz out : Int) (o : NatOr)
+    (he : entryCheck s fsz out = none) (htm : takesMulti s fuzz fsz out o = true)
+    (hok : (encodeNative s fuzz fsz out o).ok = true)
+    (frames : List Bytes) (hfl : frames.map List.length = (encodeNative s fuzz fsz out o).pkt.lens) :
+    (multiTrace (ctxOf s fuzz fsz out o) (decOf s fuzz fsz out o) (effSilence (budgetSt s o fsz out) o)
+        (ctxOf s fuzz fsz out o).nbFrames.toNat 0 o.frames (acc0 (multiSt0 (decOf s fuzz fsz out o).st))).map
+      (·.payload.toNat) = (encodeNative s fuzz fsz out o).pkt.lens ∧
+    ∃ pad, repackRun
+        (List.zipWith subBytes
+          (multiTrace (ctxOf s fuzz fsz out o) (decOf s fuzz fsz out o) (effSilence (budgetSt s o fsz out) o)
+            (ctxOf s fuzz fsz out o).nbFrames.toNat 0 o.frames (acc0 (multiSt0 (decOf s fuzz fsz out o).st)))
+          frames)
+        frames.length (ctxOf s fuzz fsz out o).repacketizeLen.toNat pad =
+      .ok (pktBytes (encodeNative s fuzz fsz out o).pkt.hdr frames (encodeNative s fuzz fsz out o).pkt.size) :=
+  encode_multi_wf s fuzz fsz out o he htm hok frames hfl
+
+/-- the 60 ms CBR call of the example below takes the multi-frame path: three sub-frame calls of 159 bytes each
+    (payload 158), `repacketize_len` = 480. -/
+example : takesMulti OpusProps.C02.exSt false 2880 4000 (OpusProps.C02.exOr 158) = true ∧
+    (ctxOf OpusProps.C02.exSt false 2880 4000 (OpusProps.C02.exOr 158)).nbFrames = 3 ∧
+    (ctxOf OpusProps.C02.exSt false 2880 4000 (OpusProps.C02.exOr 158)).repacketizeLen = 480 ∧
+    (multiTrace (ctxOf OpusProps.C02.exSt false 2880 4000 (OpusProps.C02.exOr 158))
+        (decOf OpusProps.C02.exSt false 2880 4000 (OpusProps.C02.exOr 158))
+        (effSilence (budgetSt OpusProps.C02.exSt (OpusProps.C02.exOr 158) 2880 4000) (OpusProps.C02.exOr 158)) 3 0
+        (OpusProps.C02.exOr 158).frames
+        (acc0 (multiSt0 (decOf OpusProps.C02.exSt false 2880 4000 (OpusProps.C02.exOr 158)).st))).map
+      (fun r => (r.ret, r.payload)) = [(159, 158), (159, 158), (159, 158)] := by
+  decide +kernel
+
+/-- `wellformed_padded_single` / `wellformed_dtx` for `opus_encode_native` itself (single-frame path,
+    opus_encoder.c:1749-1761: neither the low-budget gate nor the multi-frame split).  For every state within the
+    skeleton invariant, every oracle behaviour within the contracts and ANY payload contents `f` of the recorded
+    length: the packet has the one frame `f`; the emitted bytes are the bytes the frame call wrote
+    (`subBytes = hdr ++ f ++ zero padding`); with VBR, or for a DTX frame, they are the code-0 packet `[toc] ++ f`;
+    in CBR they are `[toc] ++ f` when that fills `max_data_bytes`, and otherwise EXACTLY what `opus_packet_pad`
+    (C07 model `Repack.packetPad`: init / cat / out_range_impl with pad = 1) returns for `[toc] ++ f` and
+    `max_data_bytes` — code 3, one frame, zero padding.  (`encode_wellformed` shows these bytes parse.) -/
+theorem encode_wellformed_single (s : St) (fuzz : Bool) (fsz out : Int) (o : NatOr)
+    (he : entryCheck s fsz out = none)
+    (hlow : lowBudgetGate (budgetSt s o fsz out) fsz (sizeBudget (analysisUpd s o) fsz out) = false)
+    (hnm : isMulti (decOf s fuzz fsz out o).st fsz = false)
+    (hok : (encodeNative s fuzz fsz out o).ok = true)
+    (f : Bytes) (hf : f.length = (singleCall s fuzz fsz out o).payload.toNat) :
+    (encodeNative s fuzz fsz out o).pkt.lens = [f.length] ∧
+    pktBytes (encodeNative s fuzz fsz out o).pkt.hdr [f] (encodeNative s fuzz fsz out o).pkt.size =
+      subBytes (singleCall s fuzz fsz out o) f ∧
+    ((decOf s fuzz fsz out o).st.useVbr ≠ 0 ∨ (singleCall s fuzz fsz out o).dtx = true →
+      subBytes (singleCall s fuzz fsz out o) f = (encodeNative s fuzz fsz out o).pkt.tocCfg :: f) ∧
+    ((decOf s fuzz fsz out o).st.useVbr = 0 → (singleCall s fuzz fsz out o).dtx = false →
+      ((singleCall s fuzz fsz out o).payload + 1 = (sizeBudget (analysisUpd s o) fsz out).maxDataBytes →
+        subBytes (singleCall s fuzz fsz out o) f = (encodeNative s fuzz fsz out o).pkt.tocCfg :: f) ∧
+      ((singleCall s fuzz fsz out o).payload + 1 < (sizeBudget (analysisUpd s o) fsz out).maxDataBytes →
+        packetPad ((encodeNative s fuzz fsz out o).pkt.tocCfg :: f) (sizeBudget (analysisUpd s o) fsz out).maxDataBytes =
+          .ok (subBytes (singleCall s fuzz fsz out o) f))) :=
+  encode_single_wf s fuzz fsz out o he hlow hnm hok f hf
+
+/-- 64 kb/s CBR, 20 ms, 48 kHz stereo CELT: one frame call, `max_data_bytes` = 160, payload 159. -/
+example : entryCheck OpusProps.C02.exSt 960 4000 = none ∧
+    lowBudgetGate (budgetSt OpusProps.C02.exSt (OpusProps.C02.exOr 159) 960 4000) 960
+      (sizeBudget (analysisUpd OpusProps.C02.exSt (OpusProps.C02.exOr 159)) 960 4000) = false ∧
+    isMulti (decOf OpusProps.C02.exSt false 960 4000 (OpusProps.C02.exOr 159)).st 960 = false ∧
+    (encodeNative OpusProps.C02.exSt false 960 4000 (OpusProps.C02.exOr 159)).ok = true ∧
+    (singleCall OpusProps.C02.exSt false 960 4000 (OpusProps.C02.exOr 159)).payload = 159 ∧
+    (encodeNative OpusProps.C02.exSt false 960 4000 (OpusProps.C02.exOr 159)).pkt.hdr = [252] := by
+  decide +kernel
 
 /-- **encode_wellformed, without a repacketiser contract.**  For every encoder state within the skeleton
     invariant, every call (frame size, `out_data_bytes`, all settings) and every oracle behaviour within the contracts
